@@ -4,8 +4,10 @@
 
    What is proved:
    * store half (unbounded, all histories): C15_cas, C15_versions_grow, C15_accepted_write_fresh_version,
-     C15_index_never_reused, C15_refines_cas, C15_refused_write_changes_nothing_partial (+ the two _refuted witnesses
-     F-08 / v3 aliasing);
+     C15_index_never_reused, C15_refines_cas, C15_v3_values_stored_as_written (current v3 store, /repo 2aad659);
+     still false for the current code (finding F-08 / F-08b, open): C15_refused_update_rewrites_values_refuted, and
+     C15_refused_write_changes_nothing_partial is the statement under the negated F-08 signature;
+     C15_v3_values_aliased_before_repair is the witness for the v3 store BEFORE 2aad659 (finding F-C15-2, fixed);
    * watch half, UNBOUNDED (induction over every schedule of any length from the initial world, any number of writes,
      records and watchers, with / without replay, all records / one record, repaired AND unrepaired cancel path):
        C15_watch_latest            watch_ok in every reachable world;
@@ -13,16 +15,20 @@
                                    for every record it is entitled to, the current version;
        C15_watch_never_loses       at EVERY moment: delivered ++ pending in the goroutine ++ pending in the loop for it
                                    ++ Atomix event stream ends, per entitled record, with the current version;
-       C15_watch_swapped_order_refuted  the swapped order (snapshot before registration) loses an update;
-       C15_watch_latest_partial    the older bounded exploration (kept; superseded by C15_watch_latest);
+       C15_watch_swapped_order_hypothetical  a counter-model, not the code: with the HYPOTHETICAL swapped order
+                                   (snapshot before registration) an update is lost;
+       C15_watch_latest_bounded    the older bounded exploration (kept; superseded by C15_watch_latest);
    * cancel isolation, UNBOUNDED, repaired model (fixed = true = the code of /repo after 23bac70 / d4508c1):
        C15_cancel_isolated         from EVERY reachable world the loop and goroutine steps alone (no write / open /
                                    cancel) reach a quiescent world with the same store where every watcher that is
                                    not cancelled is served: a cancelled watcher never parks the loop;
        C15_no_dead_listener        safety form: no goroutine is ever gone without a drainer (WStuck unreachable) and
                                    the listener the loop waits for exists and takes the event once in its select / drained;
-       C15_cancel_isolated_partial, C15_drained_listener_never_blocks  the older one-step statements (kept);
-       C15_cancel_isolated_refuted the code BEFORE the repair (fixed = false): parked for ever (F-10).
+       C15_cancel_touches_nobody_else, C15_drained_listener_never_blocks  the older one-step statements (kept);
+       C15_cancel_isolated_before_repair  the code BEFORE 23bac70 / d4508c1 (fixed = false): parked for ever
+                                   (findings F-10 / F-C15-1, fixed).
+   Naming: unsuffixed = true of the current code; _partial / _refuted = the open F-08 family only; _before_repair = a
+   variant of the model that /repo no longer contains; _hypothetical = an instructive counter-model; _bounded = superseded.
    (Proofs/CasStoreProofs.v is this property's store proof file under a new name: Proofs/StoreProofs.v now belongs to
    C03's configuration-store write and no longer contains these lemmas.)
    Nothing of the watch half remains partial with respect to the model; what the model abstracts is listed in the
@@ -100,13 +106,21 @@ Theorem C15_refused_update_rewrites_values_refuted :
 Proof. exact refused_update_rewrites_values_refuted. Qed.
 Print Assumptions C15_refused_update_rewrites_values_refuted.
 
-(* v3 configuration store: one accepted Create with two paths stores one path's value under both *)
-Theorem C15_v3_values_aliased_refuted :
+(* v3 configuration store, current code (/repo 2aad659: every iteration of configurationStore.store works on its own
+   copy of the path value; the model's oracle o_last = []): each written path receives its own value, as in v2 *)
+Theorem C15_v3_values_stored_as_written : forall vals m, store_vals_v3 [] vals m = store_vals vals m.
+Proof. exact v3_values_own_copy. Qed.
+Print Assumptions C15_v3_values_stored_as_written.
+
+(* v3 configuration store BEFORE the repair 2aad659 (shared go 1.19 loop variable handed to a transaction that encodes
+   at Commit; oracle o_last = the path visited last): one accepted Create with two paths stored one path's value
+   under both (finding F-C15-2, fixed) *)
+Theorem C15_v3_values_aliased_before_repair :
   exists o, o_vals o = Some [(B "/a", pv1 5 1); (B "/c", pv1 48 3)] /\
     snd (fst (fst (step CfgV3 OCreate o init))) = COk /\
     get_pvs (o_key o) (s_pvs (fst (fst (fst (step CfgV3 OCreate o init))))) = [(B "/a", pv1 5 1); (B "/c", pv1 5 1)].
-Proof. exact v3_values_aliased_refuted. Qed.
-Print Assumptions C15_v3_values_aliased_refuted.
+Proof. exact v3_values_aliased_before_repair. Qed.
+Print Assumptions C15_v3_values_aliased_before_repair.
 
 (* UNBOUNDED: for EVERY schedule (any length, any interleaving of any number of writes with the steps of any number
    of Watch calls - with replay / without, all records / one record -, of the event loop, the goroutines and
@@ -155,21 +169,22 @@ Print Assumptions C15_watch_latest_nonvacuous.
    steps of Watch, event loop, watcher and cancellation, at quiescence every open watcher was last shown the current
    version of every record it is entitled to - checked by exhaustive exploration inside Coq.  Nothing is missing any
    more: the inductive invariant over unbounded schedules is C15_watch_never_loses. *)
-Theorem C15_watch_latest_partial :
+Theorem C15_watch_latest_bounded :
   forallb watch_ok (explore true alphabet_replay_all 7 w0) = true /\
   forallb watch_ok (explore true alphabet_replay_one 7 w0) = true /\
   forallb watch_ok (explore true alphabet_live_one 8 w0) = true /\
   forallb watch_ok (explore true alphabet_two 6 w0) = true /\
   forallb watch_ok (explore false alphabet_two 6 w0) = true.
 Proof. exact watch_latest_bounded. Qed.
-Print Assumptions C15_watch_latest_partial.
+Print Assumptions C15_watch_latest_bounded.
 
-(* the proof obligation rests on the listener being registered before the snapshot: with the order swapped
-   an update between the two is never shown *)
-Theorem C15_watch_swapped_order_refuted :
+(* HYPOTHETICAL order, never the code of /repo (swapped = true: replay snapshot BEFORE the listener is registered): an
+   update between the two is never shown.  Kept because it shows what C15_watch_never_loses rests on; the harness
+   probe write-during-replay forces exactly this schedule on the real stores. *)
+Theorem C15_watch_swapped_order_hypothetical :
   let g := wrun true true w0 swapped_schedule in quiescent g = true /\ watch_ok g = false.
 Proof. exact swapped_order_misses_update. Qed.
-Print Assumptions C15_watch_swapped_order_refuted.
+Print Assumptions C15_watch_swapped_order_hypothetical.
 
 (* UNBOUNDED, repaired code (fixed = true): a cancelled watcher never blocks the event loop.  From EVERY reachable
    world - any number of watchers cancelled at any point of their replay, select or send - there is a schedule of
@@ -199,12 +214,12 @@ Print Assumptions C15_no_dead_listener.
 
 (* one-step statements, superseded by C15_cancel_isolated (kept):
    cancelling touches neither the store, nor the event stream, nor the loop, nor any other watcher ... *)
-Theorem C15_cancel_isolated_partial : forall fixed g id l, l = SCancel id \/ l = SClose id ->
+Theorem C15_cancel_touches_nobody_else : forall fixed g id l, l = SCancel id \/ l = SClose id ->
   let g' := wstep fixed false g l in
   g_store g' = g_store g /\ g_clock g' = g_clock g /\ g_queue g' = g_queue g /\ g_loop g' = g_loop g /\
   forall w, In w (g_ws g) -> w_id w <> id -> In w (g_ws g').
 Proof. exact cancel_touches_nobody_else. Qed.
-Print Assumptions C15_cancel_isolated_partial.
+Print Assumptions C15_cancel_touches_nobody_else.
 
 (* ... and a cancelled watcher with a drainer never holds the loop up *)
 Theorem C15_drained_listener_never_blocks : forall fixed g e id rest w,
@@ -213,10 +228,11 @@ Theorem C15_drained_listener_never_blocks : forall fixed g e id rest w,
 Proof. exact drained_listener_never_blocks. Qed.
 Print Assumptions C15_drained_listener_never_blocks.
 
-(* F-10: for the code as it is, a cancel seen during the replay leaves the event loop parked for ever: after
-   the schedule, NO continuation of any length by any component reaches quiescence again *)
-Theorem C15_cancel_isolated_refuted :
+(* F-10 (fixed): the code BEFORE the repairs 23bac70 / d4508c1 (fixed = false: a cancel seen during the replay ends the
+   goroutine without a drainer) left the event loop parked for ever: after the schedule, NO continuation of any
+   length by any component reaches quiescence again.  The current code is C15_cancel_isolated / C15_no_dead_listener. *)
+Theorem C15_cancel_isolated_before_repair :
   forall ls, let g := wrun false false (wrun false false w0 f10_schedule) ls in
   quiescent g = false /\ g_loop g = LSend {| ev_key := 0; ev_ver := 3 |} [1; 2].
 Proof. exact cancel_isolated_refuted. Qed.
-Print Assumptions C15_cancel_isolated_refuted.
+Print Assumptions C15_cancel_isolated_before_repair.
